@@ -27,6 +27,9 @@ def check(run):
     with vlib.Lock():
         pr = vlib.coq_prop("C20", extra_targets=["model/FrameEq.vo", "model/Hex.vo"])
     run.add_proof(pr)
+    if run.tier == "thorough" and pr["ok"]:
+        import framecommon
+        framecommon.thorough_coqchk(run, "C20", broken)
     if not pr["ok"]:
         broken.append("props/C20.v or a dependency no longer checks: %s %s" % (pr["failed_at"], pr["errors"]))
 
@@ -47,7 +50,7 @@ def check(run):
         if r.get("kind") == "startup":
             kinds["startup"] = kinds.get("startup", 0) + 1
             distinct.add(("startup", tuple(r.get("ops_coq", []))))
-            bad = [k for k, v in (r.get("verdict") or {}).items() if v is False]
+            bad = [k for k, v in (r.get("invariants") or r.get("verdict") or {}).items() if v is False]
             if bad or r.get("ok") is False:
                 findings.append({"kind": "startup-accessors", "ops": r.get("ops"), "observed": r.get("observed"), "failed": bad,
                                  "what": "STARTUP accessor sequence %s: %s" % (r.get("ops"), r.get("why", bad))})
